@@ -54,7 +54,12 @@ func calleeName(c ssa.CallInstruction) string {
 		return "invoke:" + abbrev(types.TypeString(recv, nil)) + "." + cc.Method.Name()
 	}
 	if f := cc.StaticCallee(); f != nil {
-		return fnName(f)
+		n := fnName(f)
+		// the module's own generic membership helper and the standard library's are the same predicate
+		if n == "ngo/internal/slices.Contains" {
+			return "slices.Contains"
+		}
+		return n
 	}
 	if b, ok := cc.Value.(*ssa.Builtin); ok {
 		return "builtin:" + b.Name()
